@@ -63,7 +63,7 @@ pub fn live_case(fl: &str, id: &str, g: &GraphSpec, kind: &str, root: usize, tar
     match t[0] {
         // (every other plain loop is driven by `for_each` instead of a `for` statement; scripts that keep adding edges
         // forever do not exist: `*k` entries stop after k steps)
-        "iter" => l.push(format!("iter {} {root} {script}{}", t[1], if (root + script.len() + g.edges.len()) % 2 == 1 { " fold" } else { "" })),
+        "iter" => l.push(format!("iter {} {root} {script}{}", t[1], match (root + script.len() + g.edges.len()) % 4 { 1 => " fold", 2 => " over", 3 => " fold over", _ => "" })),
         "search" => {
             let m = if filter { format!("filter:-@{script}") } else { format!("each@{script}") };
             let tg = target.map_or("-".to_string(), |x| x.to_string());
